@@ -531,6 +531,29 @@ def wire_rule(P, E, H, scope=None):
             r.violate((nw.path, "constructor narrows a parameter"),
                       "%s stores only part / a re-ordered copy of a parameter (%s): inputs the caller passed are dropped or permuted"
                       % (nw.path.split("operators::")[-1], ", ".join(x.split("::")[-1] for x in bad)), body=nb)
+    # Observable::subscribe hands the user's three callbacks, as they are, to Observer::new and subscribes that observer: every
+    # guarantee about what a subscriber sees is a guarantee about the Observer's slots - a wrapper around a callback is outside it
+    if scope is None or scope("observable"):
+        sb = P.orig.get(next((x.id for x in P.orig.values() if x.nid == "observable::Observable::subscribe"), None))
+        if sb is None:
+            r.error("WIRE: anchor missing: Observable::subscribe")
+        else:
+            news = [c for c in sb.calls if atom(c) == "observer_new"]
+            subs = [c for c in sb.calls if atom(c) == "subscribe"]
+            got = []
+            for c in news[:1]:
+                for a in c.args:
+                    pv = sb.operand_prov(a)
+                    got.append(sorted(t[1] for t in pv) if all(t[0] == "param" and not t[2] for t in pv) else None)
+            r.instance(("observable::Observable::subscribe", "callbacks"), True, "Observer::new receives parameters %s" % got)
+            if len(news) != 1 or got != [[2], [3], [4]]:
+                r.violate(("observable::Observable::subscribe", "callbacks not handed to the observer unchanged"),
+                          "Observable::subscribe does not build its Observer from exactly its own three callback parameters (got %s): what the "
+                          "subscriber's callbacks see is then no longer what the Observer lets through" % got, body=sb)
+            elif len(subs) != 1 or not all(t[0] == "ret" and t[1] == news[0].bb for t in sb.operand_prov(subs[0].args[1])) \
+                    or not all(t[0] == "param" and t[1] == 1 for t in sb.operand_prov(subs[0].args[0])):
+                r.violate(("observable::Observable::subscribe", "observer not subscribed to self"),
+                          "Observable::subscribe does not subscribe exactly the Observer it built to the observable it was called on", body=sb)
     if n < 45 and scope is None:
         r.error("WIRE: only %d operator methods of the Op::new(..).execute(self) family found (floor 45)" % n)
     return r
